@@ -57,6 +57,7 @@ type Agg struct {
 	Steps                  int
 	SimWallUS              int64
 	Faults                 map[string]int
+	StallMS                int64 // simulated milliseconds covered by the stall world
 	Probes                 map[string]int
 	Digests                map[string]bool
 	Sigs                   map[string]bool
@@ -79,7 +80,11 @@ func newAgg() *Agg {
 func (a *Agg) add(prop string, r *kernel.Result) {
 	a.Runs++
 	a.Ops += r.Ops
-	a.Steps += r.Steps
+	if r.World == "stall" {
+		a.StallMS += int64(r.Steps)
+	} else {
+		a.Steps += r.Steps
+	}
 	a.SimWallUS += r.WallUS
 	a.ByWorld[r.World]++
 	a.Variants[r.Variant]++
